@@ -135,6 +135,48 @@ Definition effective (buf : list Z) (len : option Z) (off : Z) : list Z :=
   let s := skipn (Z.to_nat off) buf in
   upto_nul (match len with None => s | Some l => firstn (Z.to_nat (l - off)) s end).
 
+(* ------------------------------------------------------------------ shape of a call's buffer *)
+
+Definition nonul (s : list Z) : Prop := Forall (fun b => b <> 0) s.
+
+(* The permitted region, from the starting offset on, is [s ++ tail]: [s] is the effective
+   string (no NUL in it), [tail] whatever else is readable, [len] the length argument counted
+   from the starting offset ([None] = (size_t)-1).  Either no length is given and the tail
+   begins with the terminator; or the length ends exactly at the end of [s] (then the tail is
+   arbitrary -- possibly empty: the permitted region ends there); or the length reaches
+   further and the tail begins with a NUL. *)
+Definition tail_ok (s tail : list Z) (len : option Z) : Prop :=
+  match len with
+  | None => exists junk, tail = 0 :: junk
+  | Some l => l = Z.of_nat (length s) \/
+              (Z.of_nat (length s) < l /\ exists junk, tail = 0 :: junk)
+  end.
+
+(* The model's result meets the specification's: equal return value and position; on the
+   error value the contents of pos are left open (the man page: "updated with the progress so
+   far").  Fault / fuel exhaustion never meet anything. *)
+Definition cres_meets (c : cres) (s : sres) : Prop :=
+  match c, s with
+  | CRet r p, SOk r' p' => r = r' /\ p = p'
+  | CRet r _, SErr => r = -1
+  | _, _ => False
+  end.
+
+(* a call the man page allows: the starting offset lies inside the string; without a length
+   there is a terminator at or after it; with a length, that many bytes are readable *)
+Definition valid_call (buf : list Z) (len : option Z) (off : Z) : Prop :=
+  0 <= off /\
+  match len with
+  | None => In 0 (skipn (Z.to_nat off) buf)
+  | Some l => off <= l <= Z.of_nat (length buf)
+  end.
+
+(* totals of a list of items *)
+Definition bytes_of (its : list item) : Z := fold_right (fun i a => it_nb i + a) 0 its.
+Definition cols_of (its : list item) : Z := fold_right (fun i a => it_w i + a) 0 its.
+Definition graphs_of (its : list item) : Z :=
+  fold_right (fun i a => (if spacing i then 1 else 0) + a) 0 its.
+
 (* ------------------------------------------------------------------ oracle *)
 
 Definition pos_eqb (a b : spos) : bool :=
